@@ -21,6 +21,7 @@ theorem quad_gram {R : Type} [CommRing R] (f : Nat → Nat → R) (x : Nat → R
     apply Finset.sum_congr rfl; intro j _
     ring
   simp_rw [h1]
+  symm
   rw [Finset.sum_comm]
   apply Finset.sum_congr rfl; intro i _
   rw [Finset.sum_comm]
